@@ -403,7 +403,9 @@ pub fn run(ctx: &Ctx) {
         cli_block(ctx);
         cli_closed_sink(ctx);
         cli_nonblocking_sink(ctx);
+        crate::ttylanes::c04_no_controlling_terminal(ctx);
     }
+    ctx.require("no controlling terminal", 3);
     ctx.require("cli: plaintext sink closed", 3);
     ctx.require("cli: slow non-blocking sink", 4);
     ctx.require("write events judged", 1000);
